@@ -121,7 +121,7 @@ ldb_versions_apply(ldb_versions_t *v, ldb_edit_t *edit, ldb_mutex_t *mu) {
   VP_ASSERT(g_lost_mem == 0, "C03.d every replayed record is in a table of the edit or in db->mem");
   for (i = 0; i < VP_NEWTBL; i++)
     if (i < g_nnewtbl)
-      VP_ASSERT(g_newtbl_added[i] == g_newtbl_ok[i] && g_newtbl[i] != edit->log_number && (wf_applog_used || g_newtbl[i] < edit->log_number),
+      VP_ASSERT(g_newtbl_added[i] == g_newtbl_ok[i] && (wf_applog_used || g_newtbl[i] < edit->log_number),
                 "C03.d tables written during recovery are in the edit, numbered below a newly allocated log (a reused last log keeps its old number)");
   for (i = 0; i < VP_NAMES; i++)
     if (i < g_nreplayed)
